@@ -108,7 +108,31 @@ def check_waiting_send(ctx, fx, cfg, subs, n_wait_total, RULE="R12.2"):
 
 
 
+def check_no_mailbox_discarded(ctx, fx, cfg, RULE="R12.6"):
+    """a mailbox that was configured is the one the actor runs on: no function lets a value that is / owns a
+    `channel::Channel` go out of scope on a normal path (a builder stage that quietly replaces the bounded channel it was
+    given by a fresh unbounded one drops the first). Expected count on the pinned tree: zero drops; the census of the
+    functions looked at is the floor."""
+    def holds_channel(ty):
+        return "channel::Channel<" in ty or ty.startswith(("actor::builder::ActorBuilderWithChannel<", "actor::builder::StreamActorBuilder<"))
+    n_fn = 0
+    for f in fx.d["fns"]:
+        if "post" in f:
+            b = ctx.body(fx, f, "post")
+            drops = [(bi, blk["t"]) for bi, blk in enumerate(b.blocks) if not blk["c"] and blk["t"]["k"] == "drop" and holds_channel(blk["t"].get("ty", ""))]
+        else:
+            b = ctx.body(fx, f, "pre")
+            drops = [(bi, blk["t"]) for bi, blk in enumerate(b.blocks) if not blk["c"] and blk["t"]["k"] == "drop" and holds_channel(blk["t"].get("ty", "")) and len(blk["t"]["p"]) == 1 and not b.drop_is_noop_for(bi, blk["t"]["p"][0], holds_channel)]
+        n_fn += 1
+        if drops:
+            ctx.viol(RULE, "mailbox-discarded:%s@%s" % (f["def"], cfg), "a configured mailbox is dropped here instead of being handed on to the environment: %s" % [(t_["ty"][:60], t_["l"]) for _, t_ in drops], fn=f["def"], site=drops[0][1]["l"])
+    ctx.floor(RULE, "functions scanned for discarded mailboxes (%s)" % cfg, n_fn, 100)
+    ctx.ok(RULE, "no-mailbox-discarded@" + cfg, "crate", {"functions": n_fn})
+
+
 def check_cfg(ctx, fx, cfg):
+    if cfg != "bare":
+        check_no_mailbox_discarded(ctx, fx, cfg)
     # R12.5 (shared with C01) the receiving side adds nothing to the capacity: a loop takes a payload out of the mailbox
     # at one site and dispatches it before it takes the next — a look-ahead slot un-parks one more waiting sender while the
     # actor has not taken up the work
